@@ -261,6 +261,9 @@ EXPR_WRAPPERS = {
     # ToString for String is the blanket impl over Display: no specification possible
     ('unifiable.rs::Unifiable::replace_variables', 's.to_string()'): 'string_copy(s)',
     ('unifiable.rs::Unifiable::replace_variables', 'name.to_string()'): 'string_copy(name)',
+    # RefCell::borrow has no Verus specification; the goal of the node is only handed on
+    ('solutions.rs::solve', 'sn.borrow().goal.clone()'): 'verif_goal_of(&sn)',
+    ('solutions.rs::solve_all', 'sn.borrow().goal.clone()'): 'verif_goal_of(&sn)',
     # line_reader is generic over AsRef<Path> (File::open + BufReader::lines): external, with the assumed specification that
     # it yields the lines of the named file (spec/io.rs)
     ('rule_reader.rs::read_facts_and_rules', 'line_reader(file_name)'): 'verif_line_reader(file_name)',
@@ -757,6 +760,47 @@ class FnEmitter:
 
         if self.canary == 'A':
             edits.append((toks[bopen].end, toks[bopen].end, ('\n', [('assert(false); // CANARY', {'k': 'canary', 'fn': key, 'where': 'body'})], ''), 'block2'))
+        rt = block_text('at returns')
+        if rt:
+            # before every `return` statement (statement position only) and at the end of the body
+            for k in range(bopen + 1, bclose):
+                t = toks[k]
+                if t.kind == 'id' and t.text == 'return':
+                    pv = prev_sig(toks, k)
+                    if not (toks[pv].kind == 'p' and toks[pv].text in ('{', ';', '}')):
+                        raise Undecided('unsupported construct: `return` in expression position in %s (contract has [at returns])' % key)
+                    edits.append((t.start, t.start, ('', rt, '\n'), 'block'))
+            # the end of the body must not be an exit of its own: either the last statement is a `return ..;`, or it is a
+            # block statement all of whose paths return - then `unreached()` (requires false) after it is provable, and if
+            # the block were a value-producing tail expression the added statement would not type-check (UNDECIDED)
+            last = prev_sig(toks, bclose)
+            if toks[last].kind == 'p' and toks[last].text == '}':
+                edits.append((toks[bclose].start, toks[bclose].start, ('\n', [('    vstd::pervasive::unreached()', {'k': 'gen', 'fn': key})], ''), 'block'))
+            elif toks[last].kind == 'p' and toks[last].text == ';':
+                q = last - 1
+                depth = 0
+                first = None
+                while q > bopen:
+                    tq = toks[q]
+                    if tq.kind == 'p' and tq.text in ')]}':
+                        if depth == 0 and tq.text == '}':
+                            break
+                        depth += 1
+                    elif tq.kind == 'p' and tq.text in '([{':
+                        depth -= 1
+                        if depth < 0:
+                            break
+                    elif tq.kind == 'p' and tq.text == ';' and depth == 0:
+                        break
+                    elif tq.kind == 'id' and tq.text == 'return' and depth == 0:
+                        first = q
+                    q -= 1
+                if first is None:
+                    first = bopen
+                if not (toks[first].kind == 'id' and toks[first].text == 'return'):
+                    raise Undecided('unsupported construct: %s does not end in a return statement (contract has [at returns])' % key)
+            else:
+                raise Undecided('unsupported construct: %s ends in a tail expression (contract has [at returns])' % key)
         st = block_text('at body.start')
         if st:
             edits.append((toks[bopen].end, toks[bopen].end, ('\n', st, ''), 'block2'))
@@ -766,7 +810,7 @@ class FnEmitter:
 
         # textual anchors:  [before N "stmt"] / [after N "stmt"]
         for s in con.order:
-            m = re.match(r'^(before|after)\s+(\d+)\s+"(.*)"$', s)
+            m = re.match(r'^(before|after|before-stmt)\s+(\d+)\s+"(.*)"$', s)
             if not m:
                 continue
             where, nth, pat = m.group(1), int(m.group(2)), norm_ws(m.group(3))
@@ -801,7 +845,23 @@ class FnEmitter:
             a = toks[bopen].end + offs[pos]
             b = toks[bopen].end + offs[pos + len(pat) - 1] + 1
             blk = block_text(s)
-            if where == 'before':
+            if where == 'before-stmt':
+                # before the statement that CONTAINS the text (robust against the statement being reshaped around a call)
+                k0 = next(k for k, t in enumerate(toks) if t.start <= a < t.end or t.start >= a)
+                q = k0 - 1
+                depth = 0
+                while q > bopen:
+                    tq = toks[q]
+                    if tq.kind == 'p' and tq.text in ')]':
+                        depth += 1
+                    elif tq.kind == 'p' and tq.text in '([':
+                        depth -= 1
+                    elif tq.kind == 'p' and tq.text in (';', '{', '}') and depth <= 0:
+                        break
+                    q -= 1
+                a = toks[next_sig(toks, q)].start
+                edits.append((a, a, ('', blk, '\n'), 'block'))
+            elif where == 'before':
                 edits.append((a, a, ('', blk, '\n'), 'block'))
             else:
                 edits.append((b, b, ('\n', blk, ''), 'block2'))
@@ -918,8 +978,12 @@ def emit_static(repo, out, srcfile, name, counts, info):
     src, item = repo.find(srcfile, ('static', 'const'), name)
     text = src[item.start:item.end]
     base = lineno(src, item.start)
-    m = re.match(r'^(?:pub\s+)?static\s+(\w+)\s*:\s*&\s*str\s*=\s*(.*);\s*$', text, re.S)
+    m = re.match(r'^(?:pub\s+)?(?:static|const)\s+(\w+)\s*:\s*&\s*(?:\'static\s+)?str\s*=\s*(.*);\s*$', text, re.S)
     if not m:
+        m2 = re.match(r'^(?:pub\s+)?const\s+(\w+)\s*:\s*(u64|usize|i64|u32|i32)\s*=\s*([0-9_]+)\s*;', text, re.S)
+        if m2:
+            out.add("const %s: %s = %s;" % (m2.group(1), m2.group(2), m2.group(3)), {'k': 'src', 'file': srcfile, 'line': base})
+            return
         raise Undecided('unsupported construct: static %s is not a &str constant' % name)
     counts['R6'] = counts.get('R6', 0) + 1
     out.add("const %s: &'static str = %s;" % (m.group(1), m.group(2)), {'k': 'src', 'file': srcfile, 'line': base})
